@@ -263,3 +263,258 @@ Proof.
   destruct (retrieve_at_sound ks l _ _ r o H) as (p & Hp & Cp). destruct (P p o Hp) as (b & Hb & <-).
   exists b. split; [exact Hb|]. now rewrite <- pcompat_pattern.
 Qed.
+
+(* ================= completeness on indexes without a mixed level ================= *)
+(* a level is MIXED when it holds both the wildcard and a concrete key - the situation the known finding is about *)
+Definition is_all (c : ckey) : bool := match c with CAll => true | CVal _ => false end.
+Inductive Unmixed : list (ckey * trie) -> Prop :=
+| Unmixed_intro l : (forallb is_all (map fst l) = true \/ forallb (fun c => negb (is_all c)) (map fst l) = true) ->
+                    (forall c ch, In (c, Node ch) l -> Unmixed ch) -> Unmixed l.
+
+(* the index has the shape insert builds: outputs sit exactly below the last key *)
+Fixpoint Shaped (ks : list key) (l : list (ckey * trie)) : Prop :=
+  match ks with
+  | [] => l = []
+  | [k] => forall c t, In (c, t) l -> exists o, t = Leaf o
+  | k :: ks' => forall c t, In (c, t) l -> exists ch, t = Node ch /\ Shaped ks' ch
+  end.
+
+Lemma Shaped_nil ks : Shaped ks [].
+Proof. destruct ks as [|k [|k2 ks]]; cbn; [reflexivity | intros c t [] | intros c t []]. Qed.
+
+Lemma tget_unique l c t t' : NoDup (map fst l) -> In (c, t) l -> tget l c = Some t' -> t' = t.
+Proof.
+  induction l as [|[c0 t0] l IH]; cbn [map fst tget]; intros N H G; [destruct H|].
+  inversion N as [|? ? Hc N']; subst. destruct (ckey_eqb c c0) eqn:E.
+  - apply ckey_eqb_eq in E. subst c0. injection G as <-. destruct H as [H|H]; [now injection H|].
+    exfalso. apply Hc. apply in_map_iff. exists (c, t). now split.
+  - destruct H as [H|H]; [injection H as -> _; rewrite (proj2 (ckey_eqb_eq c c) eq_refl) in E; discriminate | now apply IH].
+Qed.
+
+Lemma tget_found l c t : In (c, t) l -> tget l c <> None.
+Proof.
+  induction l as [|[c0 t0] l IH]; intros H; [destruct H|]. cbn [tget]. destruct (ckey_eqb c c0) eqn:E; [discriminate|].
+  destruct H as [H|H]; [injection H as -> _; rewrite (proj2 (ckey_eqb_eq c c) eq_refl) in E; discriminate | now apply IH].
+Qed.
+
+Lemma tget_none_all l v : forallb is_all (map fst l) = true -> tget l (CVal v) = None.
+Proof.
+  induction l as [|[c0 t0] l IH]; cbn [map fst forallb tget]; intros H; [reflexivity|]. apply andb_prop in H as [H1 H2].
+  destruct c0; [cbn [ckey_eqb]; now apply IH | discriminate].
+Qed.
+
+Lemma tget_none_conc l : forallb (fun c => negb (is_all c)) (map fst l) = true -> tget l CAll = None.
+Proof.
+  induction l as [|[c0 t0] l IH]; cbn [map fst forallb tget]; intros H; [reflexivity|]. apply andb_prop in H as [H1 H2].
+  destruct c0; [discriminate | cbn [ckey_eqb]; now apply IH].
+Qed.
+
+Lemma in_all_is_all (l : list (ckey * trie)) c t : forallb is_all (map fst l) = true -> In (c, t) l -> c = CAll.
+Proof.
+  intros H Hin. rewrite forallb_forall in H.
+  assert (Hc : In c (map fst l)) by (apply in_map_iff; exists (c, t); now split).
+  specialize (H c Hc). destruct c; [reflexivity | discriminate].
+Qed.
+
+Lemma in_conc_is_val (l : list (ckey * trie)) c t : forallb (fun c => negb (is_all c)) (map fst l) = true -> In (c, t) l -> exists v, c = CVal v.
+Proof.
+  intros H Hin. rewrite forallb_forall in H.
+  assert (Hc : In c (map fst l)) by (apply in_map_iff; exists (c, t); now split).
+  specialize (H c Hc). destruct c; [discriminate | eexists; reflexivity].
+Qed.
+
+(* strict compatibility: the path has one key per index key *)
+Fixpoint pcompat_strict (ks : list key) (p : list ckey) (a : assignment) : bool :=
+  match ks, p with
+  | [], [] => true
+  | k :: ks', c :: p' => match c, aget a k with CVal v, Some w => Nat.eqb v w | _, _ => true end && pcompat_strict ks' p' a
+  | _, _ => false
+  end.
+
+Lemma retrieve_at_complete ks a : forall l res p o, WF l -> Unmixed l -> Shaped ks l -> In (p, o) (tpaths l) ->
+  pcompat_strict ks p a = true -> exists r, In (r, o) (retrieve_at ks a l res).
+Proof.
+  induction ks as [|k ks IH]; intros l res p o W U S H C.
+  - cbn in S. subst l. destruct H.
+  - apply tpaths_in in H as (c & t & p' & Hin & -> & Hp). cbn [pcompat_strict] in C. apply andb_prop in C as [Cc Cp].
+    inversion W as [? N Hch]; subst. inversion U as [? Mix Uch]; subst.
+    assert (D : forall res', exists r, In (r, o) (match t with Leaf o' => [(res', o')] | Node ch => retrieve_at ks a ch res' end)).
+    { intros res'. destruct ks as [|k2 ks'].
+      - cbn [Shaped] in S. destruct (S c t Hin) as (o' & ->). cbn [tpaths_t] in Hp. destruct Hp as [Hp|[]]. injection Hp as _ <-.
+        eexists. now left.
+      - cbn [Shaped] in S. destruct (S c t Hin) as (ch & -> & Sch).
+        apply (IH ch res' p' o (Hch c ch Hin) (Uch c ch Hin) Sch Hp Cp). }
+    cbn [retrieve_at]. destruct l as [|ct0 l0] eqn:El; [destruct Hin|]. rewrite <- El in *. clear El ct0 l0.
+    destruct (aget a k) as [v|] eqn:Ak.
+    + destruct c as [|v'].
+      * (* the path goes through the wildcard: the level holds wildcards only *)
+        destruct Mix as [Mix|Mix]; [|destruct (in_conc_is_val _ _ _ Mix Hin) as (? & ?); discriminate].
+        rewrite (tget_none_all l v Mix). destruct (tget l CAll) as [w|] eqn:G; [|exfalso; now apply (tget_found l CAll t Hin)].
+        rewrite (tget_unique l CAll t w N Hin G). apply D.
+      * apply Nat.eqb_eq in Cc. subst v'. destruct (tget l (CVal v)) as [w|] eqn:G; [|exfalso; now apply (tget_found l (CVal v) t Hin)].
+        rewrite (tget_unique l (CVal v) t w N Hin G). apply D.
+    + destruct (tget l CAll) as [w|] eqn:G.
+      * (* a wildcard at this level: the level holds wildcards only, the path goes through it *)
+        destruct Mix as [Mix|Mix]; [|rewrite (tget_none_conc l Mix) in G; discriminate].
+        pose proof (in_all_is_all _ _ _ Mix Hin) as ->. rewrite (tget_unique l CAll t w N Hin G). apply D.
+      * destruct c as [|v'].
+        -- destruct (D res) as (r & Hr). exists r. apply in_flat_map. exists (CAll, t). split; [exact Hin | exact Hr].
+        -- destruct (D (aset res k v')) as (r & Hr). exists r. apply in_flat_map. exists (CVal v', t). split; [exact Hin | exact Hr].
+Qed.
+
+(* ---------- insertion keeps the shape, adds the new path, keeps the old paths with another pattern ---------- *)
+Lemma tset_new l c t : In (c, t) (tset l c t).
+Proof.
+  induction l as [|[c0 t0] l IH]; cbn [tset]; [now left|]. destruct (ckey_eqb c c0) eqn:E; [|right; exact IH].
+  apply ckey_eqb_eq in E. subst c0. now left.
+Qed.
+
+Lemma insert_at_shaped ks a out : forall l, Shaped ks l -> Shaped ks (insert_at ks a out l).
+Proof.
+  induction ks as [|k ks IH]; intros l S; [exact S|]. destruct ks as [|k2 ks'].
+  - rewrite insert_at_one. cbn [Shaped] in *. intros c t H.
+    assert (G : forall l0, (forall c t, In (c, t) l0 -> exists o, t = Leaf o) -> In (c, t) (tset l0 (ck_of a k) (Leaf out)) -> exists o, t = Leaf o).
+    { clear. induction l0 as [|[c0 t0] l0 IH]; cbn [tset]; intros S H.
+      - destruct H as [H|[]]. injection H as _ <-. eexists; reflexivity.
+      - destruct (ckey_eqb (ck_of a k) c0).
+        + destruct H as [H|H]; [injection H as _ <-; eexists; reflexivity | apply (S c t); now right].
+        + destruct H as [H|H]; [apply (S c t); now left | apply IH; [intros c' t' H'; apply (S c' t'); now right | exact H]]. }
+    now apply (G l S).
+  - rewrite insert_at_two. set (sub := match tget l (ck_of a k) with Some (Node ch) => ch | _ => [] end).
+    assert (Ssub : Shaped (k2 :: ks') sub).
+    { unfold sub. destruct (tget l (ck_of a k)) as [[o|ch]|] eqn:G; try apply Shaped_nil.
+      change (forall c t, In (c, t) l -> exists ch, t = Node ch /\ Shaped (k2 :: ks') ch) in S.
+      destruct (S _ _ (tget_in _ _ _ G)) as (ch' & E & Sch). now injection E as <-. }
+    change (forall c t, In (c, t) (tset l (ck_of a k) (Node (insert_at (k2 :: ks') a out sub))) ->
+            exists ch, t = Node ch /\ Shaped (k2 :: ks') ch).
+    change (forall c t, In (c, t) l -> exists ch, t = Node ch /\ Shaped (k2 :: ks') ch) in S.
+    intros c t H.
+    assert (G : forall l0 nw, (forall c t, In (c, t) l0 -> exists ch, t = Node ch /\ Shaped (k2 :: ks') ch) ->
+                (exists ch, nw = Node ch /\ Shaped (k2 :: ks') ch) ->
+                In (c, t) (tset l0 (ck_of a k) nw) -> exists ch, t = Node ch /\ Shaped (k2 :: ks') ch).
+    { clear. induction l0 as [|[c0 t0] l0 IH]; cbn [tset]; intros nw S Hn H.
+      - destruct H as [H|[]]. injection H as _ <-. exact Hn.
+      - destruct (ckey_eqb (ck_of a k) c0).
+        + destruct H as [H|H]; [injection H as _ <-; exact Hn | apply (S c t); now right].
+        + destruct H as [H|H]; [apply (S c t); now left | eapply IH; [intros c' t' H'; apply (S c' t'); now right | exact Hn | exact H]]. }
+    apply (G l (Node (insert_at (k2 :: ks') a out sub)) S); [|exact H]. eexists. split; [reflexivity | now apply IH].
+Qed.
+
+Lemma insert_at_has_new ks a out : forall l, ks <> [] -> In (pattern ks a, out) (tpaths (insert_at ks a out l)).
+Proof.
+  induction ks as [|k ks IH]; intros l NE; [congruence|]. destruct ks as [|k2 ks'].
+  - rewrite insert_at_one. apply tpaths_in. exists (ck_of a k), (Leaf out), []. split; [apply tset_new | split; [reflexivity | now left]].
+  - rewrite insert_at_two. apply tpaths_in. eexists (ck_of a k), _, (pattern (k2 :: ks') a). split; [apply tset_new|].
+    split; [reflexivity|]. apply (IH _ ltac:(discriminate)).
+Qed.
+
+Lemma insert_at_keeps ks a out : forall l p o, WF l -> Shaped ks l -> In (p, o) (tpaths l) -> p <> pattern ks a ->
+  In (p, o) (tpaths (insert_at ks a out l)).
+Proof.
+  induction ks as [|k ks IH]; intros l p o W S H Hne; [exact H|]. inversion W as [? N Hch]; subst.
+  apply tpaths_in in H as (c & t & p' & Hin & -> & Hp). destruct ks as [|k2 ks'].
+  - rewrite insert_at_one. cbn [Shaped] in S. destruct (S c t Hin) as (o' & ->). destruct Hp as [Hp|[]]. injection Hp as <- <-.
+    apply tpaths_in. exists c, (Leaf o'), []. split; [|split; [reflexivity | now left]].
+    apply tset_old; [|exact Hin]. intros ->. apply Hne. reflexivity.
+  - rewrite insert_at_two. change (forall c t, In (c, t) l -> exists ch, t = Node ch /\ Shaped (k2 :: ks') ch) in S.
+    destruct (S c t Hin) as (ch & -> & Sch).
+    destruct (ckey_eqb c (ck_of a k)) eqn:E.
+    + apply ckey_eqb_eq in E. subst c.
+      destruct (tget l (ck_of a k)) as [w|] eqn:G; [|exfalso; now apply (tget_found l _ _ Hin)].
+      pose proof (tget_unique l _ _ w N Hin G) as ->.
+      apply tpaths_in. eexists (ck_of a k), _, p'. split; [apply tset_new | split; [reflexivity|]].
+      apply IH; [eapply Hch; exact Hin | exact Sch | exact Hp|]. intros ->. apply Hne. reflexivity.
+    + apply tpaths_in. exists c, (Node ch), p'. split; [|split; [reflexivity | exact Hp]].
+      apply tset_old; [|exact Hin]. intros ->. rewrite (proj2 (ckey_eqb_eq _ _) eq_refl) in E. discriminate.
+Qed.
+
+(* ---------- the reference store keeps one entry per pattern ---------- *)
+Definition pats (ks : list key) (st : list entry) : list (list ckey) := map (fun e => pattern ks (fst e)) st.
+
+Lemma spec_insert_pats ks st a out :
+  pats ks (spec_insert ks st a out) = if existsb (fun q => pat_eqb q (pattern ks a)) (pats ks st) then pats ks st else pats ks st ++ [pattern ks a].
+Proof.
+  induction st as [|[b o] st IH]; cbn [spec_insert pats map fst existsb]; [reflexivity|].
+  destruct (pat_eqb (pattern ks b) (pattern ks a)) eqn:E; cbn [orb pats map fst]; [reflexivity|].
+  fold (pats ks (spec_insert ks st a out)) (pats ks st). rewrite IH.
+  destruct (existsb (fun q => pat_eqb q (pattern ks a)) (pats ks st)); reflexivity.
+Qed.
+
+Lemma spec_insert_nodup ks st a out : NoDup (pats ks st) -> NoDup (pats ks (spec_insert ks st a out)).
+Proof.
+  intros N. rewrite spec_insert_pats. destruct (existsb _ _) eqn:E; [exact N|].
+  assert (G : forall (l : list (list ckey)) x, NoDup l -> ~ In x l -> NoDup (l ++ [x])).
+  { clear. induction l as [|y l IH]; intros x N H; cbn [app]; [constructor; [intros []|constructor]|].
+    inversion N as [|? ? Hy Nl]; subst. constructor.
+    - rewrite in_app_iff. intros [H1|[H1|[]]]; [contradiction|]. subst. apply H. now left.
+    - apply IH; [exact Nl|]. intros H1. apply H. now right. }
+  apply G; [exact N|]. intros H. assert (X : existsb (fun q => pat_eqb q (pattern ks a)) (pats ks st) = true).
+  { apply existsb_exists. exists (pattern ks a). split; [exact H | now apply pat_eqb_eq]. }
+  congruence.
+Qed.
+
+Lemma spec_insert_in ks st a out b o : NoDup (pats ks st) -> In (b, o) (spec_insert ks st a out) ->
+  (pattern ks b = pattern ks a /\ o = out) \/ (pattern ks b <> pattern ks a /\ In (b, o) st).
+Proof.
+  induction st as [|[b0 o0] st IH]; cbn [spec_insert]; intros N H.
+  - destruct H as [H|[]]. injection H as <- <-. now left.
+  - cbn [pats map fst] in N. inversion N as [|? ? Hp N']; subst. destruct (pat_eqb (pattern ks b0) (pattern ks a)) eqn:E.
+    + apply pat_eqb_eq in E. destruct H as [H|H].
+      * injection H as <- <-. now left.
+      * right. split; [|now right]. intros E2. apply Hp. rewrite E, <- E2. apply in_map_iff. exists (b, o). now split.
+    + destruct H as [H|H].
+      * injection H as <- <-. right. split; [|now left]. intros E2. rewrite E2 in E. rewrite (proj2 (pat_eqb_eq _ _) eq_refl) in E. discriminate.
+      * destruct (IH N' H) as [L|[R1 R2]]; [now left | right; split; [exact R1 | now right]].
+Qed.
+
+(* ---------- the converse invariant: every stored entry is a path of the index ---------- *)
+Definition Indexed (s : both) : Prop :=
+  WF (root (impl s)) /\ Shaped (keys (impl s)) (root (impl s)) /\ NoDup (pats (keys (impl s)) (spec s)) /\
+  forall b o, In (b, o) (spec s) -> In (pattern (keys (impl s)) b, o) (tpaths (root (impl s))).
+
+Lemma indexed_step s o : keys (impl s) <> [] -> op_ok (keys (impl s)) o = true -> Indexed s -> Indexed (fst (step s o)).
+Proof.
+  intros NE OK (W & S & N & P). destruct o as [a out|a|a|]; cbn [step fst].
+  - destruct a as [|kv a']; [cbn in OK; discriminate|]. unfold Indexed. cbn [ic_insert impl spec root keys].
+    split; [now apply insert_at_wf|]. split; [now apply insert_at_shaped|]. split; [now apply spec_insert_nodup|].
+    intros b o H. destruct (spec_insert_in _ _ _ _ b o N H) as [[E ->]|[Hne Hold]].
+    + rewrite E. now apply insert_at_has_new.
+    + apply insert_at_keeps; [exact W | exact S | now apply P | exact Hne].
+  - destruct (ic_check (impl s) a) as [b c'] eqn:E. cbn [fst impl spec].
+    assert (R : root c' = root (impl s) /\ keys c' = keys (impl s)).
+    { unfold ic_check in E. destruct (restrict (keys (impl s)) a) as [|kv ra]; [injection E as _ <-; now split|].
+      destruct (ss_check (sset (impl s)) (kv :: ra)). injection E as _ <-. now split. }
+    destruct R as [R1 R2]. unfold Indexed. cbn [impl spec]. rewrite R1, R2. repeat split; assumption.
+  - repeat split; assumption.
+  - unfold Indexed. cbn [ic_clear impl spec root keys]. split; [apply WF_nil|]. split; [apply Shaped_nil|]. split; [constructor | intros b o []].
+Qed.
+
+Lemma indexed_after ks ops : ks <> [] -> forallb (op_ok ks) ops = true -> Indexed (state_after ks ops).
+Proof.
+  intros NE. unfold state_after.
+  assert (G : forall ops s, keys (impl s) = ks -> Indexed s -> forallb (op_ok ks) ops = true ->
+              Indexed (fold_left (fun s o => fst (step s o)) ops s)).
+  { induction ops0 as [|o ops0 IH]; intros s K S OK; cbn [fold_left]; [exact S|].
+    cbn [forallb] in OK. apply andb_prop in OK as [O1 O2]. apply IH.
+    - now rewrite keys_step.
+    - apply indexed_step; [now rewrite K | now rewrite K | exact S].
+    - exact O2. }
+  intros OK. apply G; [reflexivity| |exact OK]. split; [apply WF_nil|]. split; [apply Shaped_nil|]. split; [constructor | intros b o []].
+Qed.
+
+Lemma pcompat_strict_pattern ks b l : pcompat_strict ks (pattern ks b) l = compatible ks b l.
+Proof.
+  induction ks as [|k ks IH]; cbn [pattern map pcompat_strict compatible forallb]; [reflexivity|]. fold (pattern ks b). rewrite IH. f_equal.
+  unfold ck_of. destruct (aget b k), (aget l k); reflexivity.
+Qed.
+
+(* On an index in which NO level holds both the wildcard and a concrete key, retrieval is COMPLETE: every stored entry compatible
+   with the lookup is returned.  (So the loss of entries - the known finding - needs a mixed level.) *)
+Theorem retrieve_complete_unmixed ks ops l b o : ks <> [] -> forallb (op_ok ks) ops = true ->
+  Unmixed (root (impl (state_after ks ops))) ->
+  In (b, o) (spec (state_after ks ops)) -> compatible ks b l = true ->
+  exists r, In (r, o) (ic_retrieve (impl (state_after ks ops)) l).
+Proof.
+  intros NE OK U Hb C. destruct (indexed_after ks ops NE OK) as (W & S & _ & P). unfold ic_retrieve. rewrite keys_state_after in *.
+  apply (retrieve_at_complete ks l _ l (pattern ks b) o W U S (P b o Hb)). now rewrite pcompat_strict_pattern.
+Qed.
